@@ -191,9 +191,22 @@ pub fn run(ctx: &Ctx) -> i32 {
             acc.sample(i, || json!({"text": s}));
         }
     }));
-    let mut s4 = SubReport::new("no-panic", "A", &format!("every string of length ≤ {} over {{a,1,-,.,:}} plus \"none\", \"gzip\", … through Nevra::parse, Evr::parse, parse_values, rpm_evr_compare, CompressionType::from_str", l), d);
+    let mut s4 = SubReport::new("no-panic", "A", &format!("every string of length ≤ {} over {{a,1,-,.,:}} plus \"none\", \"gzip\", …, and texts of length 3 … 4096 (every power of two ± 1) with a 2-, 3- or 4-byte character straddling the boundary, through Nevra::parse, Evr::parse, parse_values, rpm_evr_compare, CompressionType::from_str", l), d);
     for w in ["none", "gzip", "zstd", "xz", "bzip2", "", "é", "-:-.", ":::", "---"] {
         check_nopanic(w, &mut s4.acc);
+    }
+    // texts whose length sits at a power of two, with a multi-byte character straddling the boundary
+    for l in [3usize, 4, 7, 8, 15, 16, 17, 31, 32, 33, 63, 64, 65, 127, 128, 129, 255, 256, 257, 1023, 1024, 4095, 4096] {
+        for (fill, tail) in [("a", "é"), ("a", "語"), ("a", "😀"), ("-", "é"), (":", "é"), (".", "語")] {
+            for back in 0..4usize {
+                let mut t = fill.repeat(l.saturating_sub(back));
+                t.push_str(tail);
+                t.push_str("tail-1.2-3.x");
+                check_nopanic(&t, &mut s4.acc);
+            }
+        }
+        check_nopanic(&"語".repeat(l), &mut s4.acc);
+        check_nopanic(&"é".repeat(l), &mut s4.acc);
     }
     s4.acc.nontrivial = s4.acc.evals; // every string is a case of the no-panic clause
     ctx.finish(
